@@ -52,6 +52,8 @@ def cases(tier):
                     s = U.spec(cls, shape, sp, org)
                     for op in ("construct", "apply_BCs", "solvePDE", "solveExplicitPDE", "scale"):
                         out.append({"grid": s, "op": op, "tier": tier})
+                    if sp == (templates[-1],) * d:
+                        out.append({"grid": s, "op": "sharing", "tier": tier})
         # the same problem in other units: lengths x 2^k (a scales with the length), values x 2^m (c scales
         # with the value) - exact rescalings, so every relation must hold exactly as before
         shape = QUICK_SHAPES[d][1] if d > 1 else (3,)
@@ -64,7 +66,7 @@ def cases(tier):
 
 def weight(case):
     d = len(case["grid"]["shape"])
-    return int(np.prod([k + 2 for k in case["grid"]["shape"]])) * (5 ** d) * (3 if case["op"] in ("solvePDE", "scale") else 1)
+    return int(np.prod([k + 2 for k in case["grid"]["shape"]])) * (5 ** d) * (3 if case["op"] in ("solvePDE", "scale", "sharing") else 1)
 
 
 def kind_vectors(d, tier):
@@ -276,6 +278,33 @@ def check_bcrows(g, v, per, res, seen, label, kinds):
                                         "detail": {"grid": U.spec_id(g.spec), "kinds": list(kinds), "periodic": list(per)}})
 
 
+def check_interior_rows(g, v, eq, res, seen, label, kinds, per):
+    """The solved interior and the reported boundary values are mutually consistent: the interior equations (sum of the
+    terms), evaluated on the reported array with its re-imposed boundary values, are satisfied."""
+    M = np.zeros((g.n, g.n))
+    r = np.zeros(g.n)
+    for t in eq:
+        if isinstance(t, tuple):
+            M = M + dense(t[0])
+            r = r + np.asarray(t[1], dtype=float)
+        elif getattr(t, "ndim", 0) == 2:
+            M = M + dense(t)
+        else:
+            r = r + np.asarray(t, dtype=float)
+    full = np.asarray(v._value, dtype=float).ravel()
+    resid = (M @ full - r)[g.imask]
+    sc = (np.abs(M) @ np.abs(full) + np.abs(r))[g.imask]
+    res["evals"] += int(resid.size)
+    if not np.all(np.abs(resid) <= 1e-9 * np.max(sc) + 1e-300):
+        k = "C03:interior_vs_reported:%s:%s" % (g.cls, label)
+        if k not in seen:
+            seen.add(k)
+            j = int(np.argmax(np.abs(resid)))
+            res["findings"].append({"key": k, "msg": "%s on %s: the interior equations evaluated with the reported boundary values have residual %.3g (scale %.3g) - "
+                                                     "the solver did not use the boundary conditions that the reported values obey" % (label, U.spec_id(g.spec), resid[j], float(np.max(sc))),
+                                    "detail": {"grid": U.spec_id(g.spec), "kinds": list(kinds), "periodic": list(per)}})
+
+
 def fields(g):
     out = [("generic", U.generic_array(g.dims, tag=221, signed=True))]
     # unit interior fields: first, last and (if any) a middle cell
@@ -302,7 +331,7 @@ def run_case(case):
     flds = [(n, f * mag) for n, f in fields(g)]
     kvs = kind_vectors(g.d, tier)
     pers = periodic_subsets(g.cls, tier)
-    if op in ("solvePDE", "scale") or tier == "quick":
+    if op in ("solvePDE", "scale", "sharing") or tier == "quick":
         flds = flds[:2]
     if op in ("construct", "apply_BCs", "solveExplicitPDE") and mag == 1.0:
         # the initial array may be integer- or bool-typed ("a count / label / mask field"); the variable is
@@ -338,9 +367,33 @@ def run_case(case):
                         if o._periodic:
                             n.periodic = True
                     v.apply_BCs()
+                elif op == "sharing":
+                    # the conditions are edited on a variable's own BC object, a second variable is then constructed
+                    # with that same object, and the first one is solved: its boundary values obey the edited conditions
+                    v = pf.CellVariable(g.mesh, fld.copy(), pf.BoundaryConditions(g.mesh))
+                    v.apply_BCs()
+                    nb = make_bc(g, kinds, per, mag, pmode)
+                    for s_ in SIDE_NAMES:
+                        o, n = getattr(nb, s_), getattr(v.BCs, s_)
+                        if np.asarray(o._a).size:
+                            n.a = np.array(o._a)
+                            n.b = np.array(o._b)
+                            n.c = np.array(o._c)
+                        if o._periodic:
+                            n.periodic = True
+                    w_ = pf.CellVariable(g.mesh, fld[::-1].copy() if g.d == 1 else fld * 0.5, v.BCs)
+                    eq_ = [pf.transientTerm(v, 0.5, 1.0), -pf.diffusionTerm(D)]
+                    pf.solvePDE(v, eq_)
+                    if np.all(np.isfinite(np.asarray(v._value)[tuple(slice(1, -1) for _ in range(g.d))])) and not per:
+                        check_interior_rows(g, v, eq_, res, seen, op, kinds, per)
+                    if np.all(np.isfinite(np.asarray(w_._value))):
+                        check_boundary(g, w_, per, res, seen, "sharing(second variable)", kinds)
                 elif op == "solvePDE":
                     v = pf.CellVariable(g.mesh, fld.copy(), make_bc(g, kinds, per, mag, pmode))
-                    pf.solvePDE(v, [pf.transientTerm(v, 0.5, 1.0), -pf.diffusionTerm(D)])
+                    eq_ = [pf.transientTerm(v, 0.5, 1.0), -pf.diffusionTerm(D)]
+                    pf.solvePDE(v, eq_)
+                    if np.all(np.isfinite(np.asarray(v._value)[tuple(slice(1, -1) for _ in range(g.d))])) and not per:
+                        check_interior_rows(g, v, eq_, res, seen, op, kinds, per)
                 elif op == "solveExplicitPDE":
                     v0 = pf.CellVariable(g.mesh, fld.copy(), make_bc(g, kinds, per, mag, pmode))
                     v = pf.solveExplicitPDE(v0, 0.125, rhs_expl)
